@@ -628,3 +628,85 @@ Proof.
   split; [|reflexivity].
   intros c [<-|[<-|[]]]; left; reflexivity.
 Qed.
+
+(* ---- the precondition as an executable test ------------------------------------------------------------------------------------- *)
+(* used by checks/C08.py to count the generated problems the theorem speaks about *)
+
+Definition name_okb (nm : name) : bool :=
+  match nm with [] => false | c :: r => is_name_char c true && forallb (fun x => is_name_char x false) r end.
+Lemma name_okb_ok nm : name_okb nm = true -> name_ok nm.
+Proof. destruct nm as [|c r]; [discriminate|]. cbn. intros H. apply andb_true_iff in H. exact H. Qed.
+
+Definition word_okb (w : list ascii) : bool :=
+  negb (is_nil w) && forallb (fun c => negb (is_space c) && negb (special c)) w.
+Lemma word_okb_ok w : word_okb w = true -> word_ok w.
+Proof. unfold word_okb, word_ok. intros H. apply andb_true_iff in H. destruct H as [A B]. split; [destruct w; [discriminate|discriminate]|exact B]. Qed.
+
+Fixpoint nodup_names (l : list name) : bool :=
+  match l with [] => true | a :: t => negb (mem a t) && nodup_names t end.
+Lemma nodup_names_ok l : nodup_names l = true -> NoDup l.
+Proof.
+  induction l as [|a l IH]; intros H; [constructor|]. cbn in H. apply andb_true_iff in H. destruct H as [A B].
+  constructor; [|auto]. intros IN. apply mem_In in IN. rewrite IN in A. discriminate.
+Qed.
+
+Section WfB.
+  Variable M : Q.
+  Definition coef_okb (c : Q) : bool := negb (Qeq_bool (absq c) M).
+  Definition val_okb (v : Q) : bool := negb (Qeq_bool v M) && negb (Qeq_bool v (- M)).
+  Definition row_okb (cn0 : list name) (r : lrow) : bool :=
+    name_okb (lr_name r) && forallb (fun t => coef_okb (fst t) && name_okb (snd t)) (row_terms cn0 r) &&
+    negb (is_nil (row_terms cn0 r)) && val_okb (lr_rhs r) &&
+    match lr_sense r with SR => val_okb (lr_rhs r + lr_range r) | _ => true end.
+
+  Lemma val_okb_ok v : val_okb v = true -> val_ok M v.
+  Proof. unfold val_okb, val_ok. intros H. apply andb_true_iff in H. destruct H as [A B]. now apply negb_true_iff in A, B. Qed.
+
+  Lemma row_okb_ok cn0 r : row_okb cn0 r = true -> row_ok M cn0 r.
+  Proof.
+    unfold row_okb, row_ok. rewrite !andb_true_iff. intros [[[[A B] C] D] E].
+    split; [now apply name_okb_ok|]. split.
+    - unfold terms_ok. apply Forall_forall. intros t IN. rewrite forallb_forall in B. specialize (B t IN).
+      apply andb_true_iff in B. destruct B as [B1 B2]. split; [unfold coef_ok; now apply negb_true_iff in B1|now apply name_okb_ok].
+    - split; [destruct (row_terms cn0 r); [discriminate|discriminate]|]. split; [now apply val_okb_ok|].
+      intros ES. rewrite ES in E. now apply val_okb_ok.
+  Qed.
+
+  Definition wf_lpb (P : llp) : bool :=
+    match l_probname P with Some n => word_okb n | None => true end &&
+    name_okb (l_objname P) &&
+    nodup_names (cn P) &&
+    forallb (fun c => name_okb (lc_name c) && negb (reserved (lc_name c)) && coef_okb (lc_obj c) && Qle_bool (lc_lo c) (lc_up c)) (l_cols P) &&
+    forallb (fun r => forallb (fun e => mem (fst e) (cn P)) (lr_ent r)) (l_rows P) &&
+    forallb (row_okb (cn P)) (written P) &&
+    nodup_names (l_objname P :: map lr_name (written P)) &&
+    negb (is_nil (written P)) &&
+    forallb (fun c => negb (Qeq_bool (lc_obj c) 0) ||
+                      existsb (fun r => negb (Qeq_bool (coefS (lr_ent r) (lc_name c)) 0)) (written P)) (l_cols P) &&
+    (negb (existsb lc_int (l_cols P)) || l_intmarker P).
+
+  Theorem wf_lpb_sound P : wf_lpb P = true -> wf_lp M P.
+  Proof.
+    unfold wf_lpb, wf_lp. rewrite !andb_true_iff. intros [[[[[[[[[A B] C] D] E] F] G] H] I] J].
+    split; [destruct (l_probname P); [now apply word_okb_ok|exact Logic.I]|].
+    split; [now apply name_okb_ok|]. split; [now apply nodup_names_ok|].
+    split.
+    { intros c IN. rewrite forallb_forall in D. specialize (D c IN). rewrite !andb_true_iff in D. destruct D as [[[D1 D2] D3] D4].
+      split; [now apply name_okb_ok|]. split; [now apply negb_true_iff in D2|]. split; [unfold coef_ok; now apply negb_true_iff in D3|].
+      now apply Qle_bool_iff. }
+    split.
+    { intros r e INr INe. rewrite forallb_forall in E. specialize (E r INr). rewrite forallb_forall in E. apply mem_In, (E e INe). }
+    split; [intros r IN; rewrite forallb_forall in F; now apply row_okb_ok, F|].
+    split; [now apply nodup_names_ok|]. split; [destruct (written P); [discriminate|discriminate]|].
+    split.
+    { intros c IN. rewrite forallb_forall in I. specialize (I c IN). apply orb_true_iff in I. destruct I as [I|I].
+      - left. now apply negb_true_iff in I.
+      - right. apply existsb_exists in I. destruct I as (r & INr & Z). exists r. split; [exact INr|now apply negb_true_iff in Z]. }
+    intros EX. rewrite EX in J. exact J.
+  Qed.
+
+  (* the round trip for every problem that passes the test *)
+  Corollary lp_roundtrip_b P : 0 < M -> wf_lpb P = true ->
+    exists P', read_lp true M (write_lp M P) = Some P' /\ equiv_by_name (to_nlp P) (to_nlp P') = true.
+  Proof. intros HM H. apply (lp_roundtrip M HM P), wf_lpb_sound, H. Qed.
+End WfB.
